@@ -1,7 +1,7 @@
 """C03 - operations never corrupt their operands or shared charge data.
 
 proof gate (coq/Props/C03.v: frame theorems on the store model)  +  correspondence: every generated history is
-replayed on Model/Store.v (check_history, vm_compute) and the tensors the implementation changed must be among
+replayed on Model/Store.v (check_history_applicable, vm_compute) and the tensors the implementation changed must be among
 those the model allows to change  +  oracle: fingerprints of every live object before/after each step
 (harness/impl/c03_impl.py), judged by the rules of the property text; MPS/MPO/Krylov level checks.
 """
@@ -309,7 +309,7 @@ def main(ctx):
             coq_cases.append('(%d%%nat, [%s])' % (len(c['pool']), '; '.join(ms)))
             coq_src.append((cfg, ci))
     ctx.cov['input_distribution'] = opstat
-    bad, err = common.coq_failing_indices('cases_c03', ['Base.Prelude', 'Model.Store'], 'check_history', coq_cases, shard=150)
+    bad, err = common.coq_failing_indices('cases_c03', ['Base.Prelude', 'Model.Store'], 'check_history_applicable', coq_cases, shard=150)
     if err:
         ctx.fail('correspondence', 'model evaluation failed: ' + err[-600:], None)
     for b in bad[:5]:
